@@ -52,7 +52,8 @@ def chain_programs(tier, rng, n_nested=3000, n_other=1500):
     return sorted(nested[:n_nested] + other[:n_other], key=lambda it: int(it[0][3:])), total
 
 
-STORE_SPELLINGS = ['ann', 'for', 'with', 'tuple', 'import']
+STORE_SPELLINGS = ['ann', 'for', 'with', 'tuple', 'import', 'def', 'class']
+PLACEMENTS = ['except', 'match', 'with', 'finally', 'loopelse']
 
 
 def observe_and_judge(rep, progs, optsets, family, tag, rng, variant_share=0.25, store_share=0.1):
@@ -68,12 +69,24 @@ def observe_and_judge(rep, progs, optsets, family, tag, rng, variant_share=0.25,
                 jobs.append({'id': '%s|%s|s-%s' % (pid, on, sp), 'p': p, 'variant': 0, 'opts': o, 'store': sp})
                 # ... and one suite down, inside an `if` of the same scope
                 jobs.append({'id': '%s|%s|s-%s-w' % (pid, on, sp), 'p': p, 'variant': 0, 'opts': o, 'store': sp, 'wrap': True})
+        if store_share and any(p['kind'][k] == 'c' and 'store' in hs and 'load' in hs for k, u in enumerate(p['uses']) for hs in u.values()):
+            # a class body that reads and binds the same name: always also with the binding spelled as a method / nested class (the read then falls back to the
+            # module or, through the resolver, to an enclosing function's name)
+            on, o = optsets[rng.randrange(len(optsets))]
+            for sp in ('def', 'class'):
+                jobs.append({'id': '%s|%s|cs-%s' % (pid, on, sp), 'p': p, 'variant': 0, 'opts': o, 'store': sp})
         if rng.random() < store_share:
             # mentions that bind nothing or are evaluated elsewhere: a value-less module-level annotation, `del` of a declared global, reads in the
             # annotations of *args / **kwargs
             on, o = optsets[rng.randrange(len(optsets))]
             for dk in ('ann', 'del', 'hdr'):
                 jobs.append({'id': '%s|%s|d-%s' % (pid, on, dk), 'p': p, 'variant': 0, 'opts': o, 'deco': [dk]})
+        if len(p['kind']) > 1 and rng.random() < 2 * store_share:
+            # where the definitions of the nested scopes sit: in an except handler, a match case, a with statement, a finally clause, the else of a loop;
+            # lambdas and comprehensions in a keyword-argument value
+            on, o = optsets[rng.randrange(len(optsets))]
+            pl = PLACEMENTS[rng.randrange(len(PLACEMENTS))]
+            jobs.append({'id': '%s|%s|p-%s' % (pid, on, pl), 'p': p, 'variant': 0, 'opts': o, 'place': pl})
         if rng.random() < variant_share:
             on, o = optsets[0]
             jobs.append({'id': '%s|%s|v1' % (pid, on), 'p': p, 'variant': 1, 'opts': o})
